@@ -114,7 +114,8 @@ class Ctx:
         them is listed in KNOWN_FINDINGS.txt the event is accounted to that finding."""
         rec = {"property": self.prop, "what": what, "case": jsonable(case),
                "expected": jsonable(expected), "observed": jsonable(observed),
-               "seed": self.seed, "tier": self.tier, "class": cls}
+               "seed": self.seed, "tier": self.tier, "class": cls,
+               "hashseed": os.environ.get("PYTHONHASHSEED")}
         for k in keys:
             if k in self.known:
                 e = self.known_seen.setdefault(k, {"n": 0, "witness": rec})
